@@ -143,6 +143,22 @@ func GenAdmission(prop string, seed uint64, thorough bool) *Scenario {
 				}
 			}
 		}
+		// a sid parameter written in the query itself: alone (unknown or empty id) or next to the real one
+		// (repeated parameter with different values: which one wins is not specified, but every check and
+		// the dispatch have to look at the same one)
+		if g.p(0.12) {
+			q = append(q, g.picks("sid=", "sid=bogus", "sid=", "sid=AAAAAAAAAAAAAAAAAAAA"))
+			if g.p(0.3) {
+				q = append(q, g.picks("sid=", "sid=bogus2"))
+			}
+			if op.SidOf == "" && g.p(0.5) {
+				if c1 := findClient(sc, "c1"); c1 != nil && c1.Upgrade == "" && c1.CloseAtMs == 0 && g.p(0.5) {
+					op.SidOf = "c1"
+				} else {
+					op.SidOf = "nobody"
+				}
+			}
+		}
 		op.Query = strings.Join(q, "&")
 		op.Hdr = map[string]string{}
 		switch g.IntN(8) {
@@ -360,10 +376,43 @@ func oracleC05(f *sessionFam, w *World, res *Result) []Violation {
 			// admission
 			tr, _, amb1 := queryParam(op.Query, "transport")
 			eio, _, amb2 := queryParam(op.Query, "EIO")
-			if amb1 || amb2 {
+			sidQ, sidInQuery, amb3 := queryParam(op.Query, "sid")
+			if sidInQuery && op.SidOf != "" {
+				amb3 = true
+			}
+			if amb1 || amb2 || amb3 {
+				// a repeated parameter with different values: the statement does not say which one counts, so only what
+				// holds under every reading is judged - a handshake needs GET, hence a request with another method never
+				// creates a session; and a documented error answer comes with exactly one connection_error event
+				w.probe("ambiguous_repeated_parameter")
+				if !isWS && op.Method != "GET" && op.Method != "OPTIONS" {
+					for _, ce := range w.evs(sp.Name, "connection") {
+						if ce.Seq > reqSeq && ce.Seq < e.Seq {
+							l.add("rejection-creates-no-session", "non-get-request", fmt.Sprintf("%s: a %s request created a session", desc, op.Method))
+						}
+					}
+				}
+				var body struct {
+					Code    *int   `json:"code"`
+					Message string `json:"message"`
+				}
+				if !isWS && (e.N == 400 || e.N == 403) && json.Unmarshal([]byte(e.S), &body) == nil && body.Code != nil {
+					nErr := 0
+					for _, ce := range w.Evs {
+						if ce.Kind == "connection_error" && ce.Sess == sp.Name && ce.Seq > reqSeq && ce.Seq < e.Seq {
+							nErr++
+						}
+					}
+					if nErr != 1 {
+						l.add("one-connection-error-event", fmt.Sprintf("%d/code-%d/repeated-parameter", nErr, *body.Code), fmt.Sprintf("%s: answered with error code %d and %d connection_error events", desc, *body.Code, nErr))
+					}
+				}
 				continue
 			}
 			sidAlias := op.SidOf
+			if sidInQuery && sidQ != "" {
+				sidAlias = "nobody" // an id written out in the query: none of them exists
+			}
 			origin := op.Hdr["Origin"]
 			exp = admExpect{engine: true, admit: true}
 			set := func(status, code int, msg string) {
@@ -482,6 +531,17 @@ func oracleC05(f *sessionFam, w *World, res *Result) []Violation {
 			continue
 		}
 		if len(w.evs(c.Name, "connection")) == 0 {
+			continue
+		}
+		touched := false
+		for _, x := range f.sc.Clients {
+			for _, op := range x.Raw {
+				if _, inQ, _ := queryParam(op.Query, "sid"); inQ && op.SidOf == c.Name {
+					touched = true // a request that, under one reading of its repeated sid, is a request of this very session
+				}
+			}
+		}
+		if touched {
 			continue
 		}
 		if st := f.snap[c.Name]; f.ended && readyOf(st) != "open" {
